@@ -741,6 +741,11 @@ func (p *Process) onStateChange(state string) {
 	switch state {
 	case types.ProcessStateSkipped:
 		p.setExitCode(1)
+	case types.ProcessStateError:
+		// the command could not be started: never report exit code 0 for it
+		if p.getExitCode() == 0 {
+			p.setExitCode(1)
+		}
 	case types.ProcessStateRestarting:
 		fallthrough
 	case types.ProcessStateLaunching:
